@@ -11,6 +11,7 @@ import (
 	"os"
 	"path/filepath"
 	"strings"
+	"time"
 
 	"chainguard.dev/apko/pkg/apk/apk"
 	"chainguard.dev/apko/pkg/build"
@@ -42,12 +43,26 @@ func resolverE2EEligible(c rCase) bool {
 	return len(c.Archs) >= 2
 }
 
+// e2eRound2: a second round on the SAME MultiArch value after one sibling's repository was regenerated
+type e2eRound2 struct {
+	Archs []rArch        // the family as published at the second round
+	Out   map[int]string // architecture position -> answer
+	How   string
+	Seq   bool // arch after arch (per-architecture errors) / BuildPackageLists (fails as a whole)
+}
+
 // resolverE2E returns, per arch index, the answer in the same `ok id,id|conflicts` form as goResolve
 // (conflicts are not reported by BuildPackageLists and are left empty).
-func resolverE2E(c rCase) (map[int]string, error) {
+//
+// With history=true a second round follows on the same MultiArch value (C14, histories): the first package of
+// architecture 0's answer that architecture 1 carries as well (same index, same name and version) is withdrawn from
+// architecture 1 — its repository is regenerated, every APKINDEX of that repository gets a later mtime — and the
+// family is resolved again: arch after arch with architecture 0 (which still carries the build) first, or through
+// BuildPackageLists.  Everything is derived from the case, nothing from a generator state: a replay does the same.
+func resolverE2E(c rCase, history bool, seq bool) (map[int]string, *e2eRound2, error) {
 	work, err := os.MkdirTemp("", "verif-resolve-e2e-")
 	if err != nil {
-		return nil, err
+		return nil, nil, err
 	}
 	defer os.RemoveAll(work)
 	nIdx := len(c.Archs[0].Indexes)
@@ -57,9 +72,9 @@ func resolverE2E(c rCase) (map[int]string, error) {
 		archNames[i] = a.Arch
 	}
 	var keyPath string
-	for i := 0; i < nIdx; i++ {
+	publish := func(fam []rArch, i int) string {
 		var pkgs []SPkg
-		for _, a := range c.Archs {
+		for _, a := range fam {
 			if i >= len(a.Indexes) {
 				continue
 			}
@@ -67,8 +82,11 @@ func resolverE2E(c rCase) (map[int]string, error) {
 				pkgs = append(pkgs, SPkg{Name: p.Name, Version: p.Version, Origin: p.Origin, Deps: p.Deps, Provides: p.Provides, InstallIf: p.InstallIf, Priority: p.Priority, OnlyArch: []string{a.Arch}})
 			}
 		}
+		return BuildSynthRepo(pkgs, archNames).WriteTo(filepath.Join(work, fmt.Sprintf("idx%d", i)))
+	}
+	for i := 0; i < nIdx; i++ {
 		dir := filepath.Join(work, fmt.Sprintf("idx%d", i))
-		keyPath = BuildSynthRepo(pkgs, archNames).WriteTo(dir)
+		keyPath = publish(c.Archs, i)
 		pin := c.Archs[0].Indexes[i].Pin
 		if pin != "" {
 			repos = append(repos, "@"+pin+" "+dir)
@@ -88,7 +106,14 @@ func resolverE2E(c rCase) (map[int]string, error) {
 	apk.VerifResetGlobalCaches()
 	mc, err := build.NewMultiArch(ctx, archs, build.WithImageConfiguration(ic), build.WithTempDir(filepath.Join(work, "tmp")))
 	if err != nil {
-		return nil, fmt.Errorf("NewMultiArch: %w", err)
+		return nil, nil, fmt.Errorf("NewMultiArch: %w", err)
+	}
+	show := func(fam []rArch, i int, pkgs []*apk.RepositoryPackage) string {
+		ids := make([]string, len(pkgs))
+		for k, p := range pkgs {
+			ids[k] = fmt.Sprint(resolverFindID(fam[i], p))
+		}
+		return "ok " + strings.Join(ids, ",") + "|"
 	}
 	lists, err := mc.BuildPackageLists(ctx)
 	out := map[int]string{}
@@ -98,17 +123,81 @@ func resolverE2E(c rCase) (map[int]string, error) {
 		for i := range c.Archs {
 			out[i] = "err"
 		}
-		return out, nil
+		return out, nil, nil
 	}
 	for i, a := range c.Archs {
-		pkgs := lists[types.ParseArchitecture(a.Arch)]
-		ids := make([]string, len(pkgs))
-		for k, p := range pkgs {
-			ids[k] = fmt.Sprint(resolverFindID(a, p))
-		}
-		out[i] = "ok " + strings.Join(ids, ",") + "|"
+		out[i] = show(c.Archs, i, lists[types.ParseArchitecture(a.Arch)])
 	}
-	return out, nil
+	if !history || len(c.Archs) < 2 {
+		return out, nil, nil
+	}
+	// the second round
+	idxOf := func(p *apk.RepositoryPackage) int {
+		for i := 0; i < nIdx; i++ {
+			if strings.Contains(p.Repository().URI, fmt.Sprintf("idx%d/", i)) {
+				return i
+			}
+		}
+		return -1
+	}
+	fam2 := make([]rArch, len(c.Archs))
+	for k, a := range c.Archs {
+		fam2[k] = rArch{Arch: a.Arch, Indexes: append([]rIndex(nil), a.Indexes...)}
+	}
+	hit, what := -1, ""
+	for _, p := range lists[archs[0]] {
+		i := idxOf(p)
+		if i < 0 || i >= len(fam2[1].Indexes) {
+			continue
+		}
+		old := fam2[1].Indexes[i].Pkgs
+		for j, q := range old {
+			if q.Name == p.Name && q.Version == p.Version {
+				fam2[1].Indexes[i].Pkgs = append(append([]rPkg(nil), old[:j]...), old[j+1:]...)
+				hit, what = i, p.Name+"-"+p.Version
+				break
+			}
+		}
+		if hit >= 0 {
+			break
+		}
+	}
+	if hit < 0 {
+		return out, nil, nil
+	}
+	// only that architecture's index is regenerated (no package is fetched by a resolution): new file, later mtime
+	later := time.Now().Add(time.Minute).Truncate(time.Second)
+	f := filepath.Join(work, fmt.Sprintf("idx%d", hit), archNames[1], "APKINDEX.tar.gz")
+	if err := os.WriteFile(f+".new", glueIndexBytes(archNames[1], hit, fam2[1].Indexes[hit].Pkgs, 0), 0o644); err != nil {
+		return nil, nil, err
+	}
+	os.Chtimes(f+".new", later, later)
+	if err := os.Rename(f+".new", f); err != nil {
+		return nil, nil, err
+	}
+	r2 := &e2eRound2{Archs: fam2, Out: map[int]string{}, Seq: seq}
+	if seq {
+		r2.How = fmt.Sprintf("second round on the same MultiArch value after %s was withdrawn from %s: Contexts[arch].BuildPackageList, %s first", what, archNames[1], archNames[0])
+		for i := range fam2 {
+			pkgs, _, err := mc.Contexts[archs[i]].BuildPackageList(ctx)
+			if err != nil {
+				r2.Out[i] = "err"
+			} else {
+				r2.Out[i] = show(fam2, i, pkgs)
+			}
+		}
+	} else {
+		r2.How = fmt.Sprintf("second round on the same MultiArch value after %s was withdrawn from %s: BuildPackageLists", what, archNames[1])
+		lists2, err := mc.BuildPackageLists(ctx)
+		for i, a := range fam2 {
+			if err != nil {
+				r2.Out[i] = "err"
+			} else {
+				r2.Out[i] = show(fam2, i, lists2[types.ParseArchitecture(a.Arch)])
+			}
+		}
+	}
+	return out, r2, nil
 }
 
 func resolverFindID(a rArch, p *apk.RepositoryPackage) int {
